@@ -584,7 +584,9 @@ def run : Nat → Task → M Out
             | some xv, some yv => if !(← equalsM xv yv) then res := false
             | _, _ => undecided "internal: equals field"
         pure (.bool res)
-      | .func .., _ | _, .func .. | .builtin _, _ | _, .builtin _ =>
+      -- values of different types are unequal (std.equals compares std.type first); only two
+      -- FUNCTIONS cannot be compared
+      | .func .., .func .. | .func .., .builtin _ | .builtin _, .func .. | .builtin _, .builtin _ =>
         fail "user" "cannot test equality of functions"
       | _, _ => pure (.bool false)
     | .compare a b => do
